@@ -235,9 +235,16 @@ class _Ops:
         selfn = f.node.args.args[0].arg if f.node.args.args else "self"
         for call in [n for n in own_nodes(f.node) if isinstance(n, ast.Call)]:
             fn = call.func
-            # helper of the same class
+            # helper of the same class, or a method of the facade reached through an attribute that holds it (self._md.helper())
+            owner_cls = None
             if isinstance(fn, ast.Attribute) and isinstance(fn.value, ast.Name) and fn.value.id == selfn and f.cls:
-                g = self.c.p.method(f.cls, fn.attr)
+                owner_cls = f.cls
+            elif isinstance(fn, ast.Attribute) and isinstance(fn.value, ast.Attribute) and fn.attr not in RULER_OPS:
+                t_ = self.c.tf.scope(f).type(fn.value)
+                if isinstance(t_, str) and t_.split("@")[0] == "MarkdownIt":
+                    owner_cls = "MarkdownIt"
+            if owner_cls:
+                g = self.c.p.method(owner_cls, fn.attr)
                 if g is not None and g is not f and fn.attr not in FACADE and not g.is_property:
                     params = [a.arg for a in g.node.args.args[1:]]
                     nb: dict[str, ast.AST] = {}
@@ -291,6 +298,19 @@ class _Ops:
                 self.out.append((rname, op, U(a0) if a0 is not None else "", call, f))
 
 
+def _ctx_class_methods(c: Ctx, f: Func) -> list[Func]:
+    """If f returns an instance of a package class that implements the context-manager protocol: that class's __init__,
+    __enter__ and __exit__."""
+    out: list[Func] = []
+    for n in own_nodes(f.node):
+        if isinstance(n, ast.Return) and isinstance(n.value, ast.Call):
+            r_ = c.p.resolve(f.module, n.value.func) if isinstance(n.value.func, (ast.Name, ast.Attribute)) else None
+            methods = getattr(r_, "methods", None)
+            if isinstance(methods, dict) and "__exit__" in methods:
+                out += [methods[k] for k in ("__init__", "__enter__", "__exit__") if k in methods]
+    return out
+
+
 def rule_fanout(c: Ctx) -> RuleResult:
     r = RuleResult("FANOUT", "each rule-management method of the facade applies the same operation, with the same request, to all four "
                              "rulers (core, block, inline, inline post-processing)")
@@ -299,6 +319,9 @@ def rule_fanout(c: Ctx) -> RuleResult:
         r.functions += 1
         ops = _Ops(c)
         ops.collect(f, {})
+        for g in _ctx_class_methods(c, f):
+            # a context manager written as a class: what its __exit__ (and __enter__) do belongs to the facade method
+            ops.collect(g, {})
         mine = [o for o in ops.out if o[1] == op]
         switching = {"enable", "disable", "enableOnly"}
         others = [o for o in ops.out if o[1] != op and o[1] in switching and op in switching]
@@ -349,7 +372,8 @@ def rule_fanout(c: Ctx) -> RuleResult:
               (" (through " + ", ".join(sorted({o[4].short for o in mine if o[4] is not f})) + ")" if any(o[4] is not f for o in mine) else ""))
     # reset_rules: the snapshot comes from get_active_rules and each ruler gets its own chain's list back
     f = c.p.func("main.py:MarkdownIt.reset_rules")
-    snap = [n for n in own_nodes(f.node) if isinstance(n, ast.Assign) and isinstance(n.value, ast.Call) and U(n.value.func).endswith("get_active_rules")]
+    snap = [n for g in [f] + _ctx_class_methods(c, f) for n in own_nodes(g.node)
+            if isinstance(n, ast.Assign) and isinstance(n.value, ast.Call) and U(n.value.func).endswith("get_active_rules")]
     r.add(f"{f.short}|snapshot", c.where(f, snap[0] if snap else f.node), f.short, U(snap[0]) if snap else "-", "discharged" if snap else "violation",
           "the state restored on exit is the snapshot of get_active_rules() taken on entry" if snap else
           "reset_rules does not snapshot get_active_rules() on entry")
